@@ -116,8 +116,8 @@ package multiendpoint
 //@ func NewMultiEndpoint
 //@   requires b != nil
 //@   absmodifies $meHas
-//@   absensures [C15.abs-new] $ret1 == nil ==> $ret0 != nil && (forall e string :: {mekey($ret0, e)} $meHas[mekey($ret0, e)] == (exists j, x in b.Endpoints :: x == e))
-//@   absensures [C15.abs-new-frame] forall m MultiEndpoint, e string :: {mekey(m, e)} m != $ret0 ==> $meHas[mekey(m, e)] == old($meHas)[mekey(m, e)]
+//@   absensures [C15,C16 abs-new] $ret1 == nil ==> $ret0 != nil && (forall e string :: {mekey($ret0, e)} $meHas[mekey($ret0, e)] == (exists j, x in b.Endpoints :: x == e))
+//@   absensures [C15,C16 abs-new-frame] forall m MultiEndpoint, e string :: {mekey(m, e)} m != $ret0 ==> $meHas[mekey(m, e)] == old($meHas)[mekey(m, e)]
 //@   ensures [C13.reject-empty] len(b.Endpoints) == 0 ==> $ret1 != nil
 //@   ensures [C13.new] len(b.Endpoints) > 0 ==> $ret1 == nil && $ret0 is *multiEndpoint && lockinv($ret0.(*multiEndpoint).RWMutex) && $ret0.(*multiEndpoint).current == b.Endpoints[0]
 //@   loop 1 invariant forall id, e in eMap :: e != nil && isa(e) && e.id == id && (e.status == recovering ==> me.recoveryTimeout != 0) && e.status != available
